@@ -72,7 +72,7 @@ func (r *yieldReader) Read(p []byte) (int, error) {
 // points; (operations, schedule) is one replayable, shrinkable value.
 func TestC07Scheduled(t *testing.T) {
 	installHook()
-	rt.Check(t, rt.N(250, 2500), func(t *rapid.T) {
+	rt.Check(t, rt.N(1200, 8000), func(t *rapid.T) {
 		storage := rapid.SampledFrom([]string{"zstd", "uncompressed"}).Draw(t, "storage")
 		tight := rapid.IntRange(0, 2).Draw(t, "tight") == 0
 		maxSize := int64(64 << 20)
@@ -84,6 +84,7 @@ func TestC07Scheduled(t *testing.T) {
 			t.Fatal(err)
 		}
 		sc := sched.New()
+		sc.BatchQueued = func() bool { return disk.VerifEvictionBatchQueued(s.Cache) }
 		defer func() {
 			curSchedMu.Lock()
 			curSched = nil
@@ -153,6 +154,7 @@ func TestC07Scheduled(t *testing.T) {
 
 		ntasks := rapid.IntRange(2, 4).Draw(t, "ntasks")
 		nextID := 10
+		sumPut := 0
 		var shape []string
 		sameKey := 0
 		for i := 0; i < ntasks; i++ {
@@ -171,6 +173,14 @@ func TestC07Scheduled(t *testing.T) {
 				nextID++
 				id := nextID
 				size := rapid.SampledFrom([]int{1, 100, 3000, 9000}).Draw(t, "size")
+				if tight && sumPut > 0 && rapid.IntRange(0, 2).Draw(t, "justFits") == 0 {
+					// exactly fits beside the reservations of the uploads drawn so far,
+					// though not once it is rounded up to whole blocks
+					if js := int(maxSize) - sumPut - rapid.SampledFrom([]int{0, 1, 100}).Draw(t, "slack"); js >= 1 && js <= 60000 {
+						size = js
+					}
+				}
+				sumPut += size
 				data := mkValue(0, id, size)
 				sizes[key][id] = size
 				step := rapid.SampledFrom([]int{size, size/2 + 1, 1000}).Draw(t, "step")
@@ -248,11 +258,23 @@ func TestC07Scheduled(t *testing.T) {
 				})
 			}
 		}
+		// schedules with long stretches: the task that ran last mostly keeps
+		// running (interleavings that matter need one request to get through
+		// several yield points, then another to run to its end, ...)
+		lastTask := ""
 		err = sc.Run(func(parked []*sched.Task) int {
 			if len(parked) == 1 {
+				lastTask = parked[0].Name
 				return 0
 			}
-			return rapid.IntRange(0, len(parked)-1).Draw(t, "sched")
+			for i, p := range parked {
+				if p.Name == lastTask && rapid.IntRange(0, 3).Draw(t, "stay") > 0 {
+					return i
+				}
+			}
+			i := rapid.IntRange(0, len(parked)-1).Draw(t, "sched")
+			lastTask = parked[i].Name
+			return i
 		}, func() int64 { return disk.VerifQueuedEvictionBytes(s.Cache) })
 		curSchedMu.Lock()
 		curSched = nil
